@@ -240,6 +240,8 @@ def execute(pid, rep, tier, workdir, make_cases, oracles, nontrivial, use_spec=T
                               "implementation": ([red[step][0]] + red[step][1] + ["--tree"] + red[step][2]) if step is not None else None})
     for name in oracles:
         for c, o, st in zip(cases, obss, stats):
+            if (c.get("tag") or {}).get("in_scope") is False:
+                continue        # correspondence-only case (e.g. a fault inside the undo itself)
             for f in ORACLES[name](c, o, st):
                 f["case"] = c
                 res.fails.append(f)
